@@ -146,7 +146,7 @@ CHECKS["C10"] = {
     "level_note": _E2E_NOTE + " Crash-freedom is shown for executed inputs only; memory/CPU exhaustion is not judged.",
     "assumptions": ["a panic that escapes to the Go runtime kills the test binary; run.py turns that into a VIOLATION with the tracked script", "ErrorLog writers are not in the panic-site list (not named by the statement)"],
     "units": [{"name": "c10", "pkg": "c10", "run": "^Test", "shards": 8, "env": {"VERIF_TRACK_CURRENT": "1"}}],
-    "expect_checks": ["c10.robust", "c10.enumerate"],
+    "expect_checks": ["c10.robust", "c10.enumerate", "c10.crowd"],
 }
 
 CHECKS["C20"] = {
